@@ -304,13 +304,12 @@ GCallChunk ==
   LET open == {c \in DOMAIN calls : InProgress(Cur, c) /\ c[1] \in J} IN
   \E first \in R(1..3) :
     IF open # {} /\ first # 1
-    THEN \E c \in R(open) : \E more \in W(<<TRUE, FALSE, FALSE>>) :
-           LET hits == {u \in Targets : \E k \in BestRegs(Cur, u) : regs[k].id = calls[c].reg} IN
-           /\ hits # {}
-           /\ \E u \in R(hits) : \E k \in R({kk \in BestRegs(Cur, u) : regs[kk].id = calls[c].reg}) :
-                LET o == [O0 EXCEPT !.prog = more]
-                    i == [In0 EXCEPT !.op = "call", !.s = c[1], !.req = c[2], !.uri = u, !.tag = Tag, !.o = o]
-                IN ~sess[calls[c].callee].stalled /\ Step(i, ChunkFx(Cur, c[1], c[2], u, o, Tag, k))
+    THEN \E c \in R(open) : \E more \in W(<<TRUE, FALSE, FALSE>>), same \in R(1..4), other \in R(Targets) :
+           \* (the chunk names the procedure of the call - or, rarely, another one)
+           LET u == IF same = 1 THEN other ELSE calls[c].proc
+               o == [O0 EXCEPT !.prog = more]
+               i == [In0 EXCEPT !.op = "call", !.s = c[1], !.req = c[2], !.uri = u, !.tag = Tag, !.o = o]
+           IN ~sess[calls[c].callee].stalled /\ Step(i, ChunkFx(Cur, c[1], c[2], o, Tag))
     ELSE \E s \in J : \E hit \in R(1..4) :
          \E u \in R(LET routable == {t \in Targets : BestRegs(Cur, t) # {}} IN IF routable # {} /\ hit # 1 THEN routable ELSE Targets) :
            LET o == [O0 EXCEPT !.prog = TRUE, !.rprog = hit = 2]
